@@ -1,5 +1,6 @@
 import SlimModel.Basic
 import Driver.Trie
+import Driver.Idx
 /-
   Driver.Loop — the model side of the line protocol (see harness/lp/lp.go).
 
@@ -13,6 +14,7 @@ namespace Driver
 
 structure DState where
   trie : Trie.State := Trie.init
+  idx : Idx.State := Idx.init
 
 def famOf (tok : String) : String := (tok.splitOn ".").headD ""
 
@@ -21,6 +23,7 @@ def dispatch (st : DState) (line : String) : DState × String :=
   let toks := line.splitOn " "
   match famOf (toks.headD "") with
   | "trie" => let (s, a) := Trie.step st.trie toks; ({ st with trie := s }, a)
+  | "idx" => let (s, a) := Idx.step st.idx toks; ({ st with idx := s }, a)
   | _ => (st, "bad-op")
 
 partial def loop (inp out : IO.FS.Stream) (st : DState) : IO Unit := do
